@@ -182,16 +182,19 @@ def _reg_rtransform():
 def _reg_atomgrid():
     from grid.angular import AngularGrid
     from grid.atomgrid import AtomGrid
-    op("convert_angular_sizes_to_degrees", "A", lambda: [np.array([6, 38, 50, 38])],
+    op("convert_angular_sizes_to_degrees", "A", lambda: [np.array([6, 30, 50, 38, 7])],
        lambda v, cb: [AngularGrid.convert_angular_sizes_to_degrees(v[0], "lebedev")])
-    op("AtomGrid", "GLA", lambda: [_rgrid(6), [3, 5, 5, 7, 3, 3], np.array([0.1, 0.2, 0.3])],
-       lambda v, cb: (lambda g: [g.points, g.weights, g.indices])(AtomGrid(v[0], degrees=v[1], center=v[2], rotate=7)))
-    op("AtomGrid[sizes]", "GA", lambda: [_rgrid(6), np.array([6, 26, 26, 50, 6, 6])],
+    # per-shell degrees that are NOT all tabulated (4 -> 5, 6 -> 7, 10 -> 11): the resolved degrees differ from the request
+    op("AtomGrid", "GLA", lambda: [_rgrid(6), [3, 4, 6, 10, 7, 5], np.array([0.1, 0.2, 0.3])],
+       lambda v, cb: (lambda g: [g.points, g.weights, g.indices, np.array(g.degrees)])(AtomGrid(v[0], degrees=v[1], center=v[2], rotate=7)))
+    op("AtomGrid[degrees array]", "GAA", lambda: [_rgrid(6), np.array([3, 4, 6, 10, 7, 5]), np.array([0.1, 0.2, 0.3])],
+       lambda v, cb: (lambda g: [g.points, g.weights, g.indices, np.array(g.degrees)])(AtomGrid(v[0], degrees=v[1], center=v[2])))
+    op("AtomGrid[sizes]", "GA", lambda: [_rgrid(6), np.array([6, 20, 26, 40, 6, 7])],
        lambda v, cb: (lambda g: [g.points, g.weights, g.indices])(AtomGrid(v[0], sizes=v[1])))
-    op("AtomGrid.from_pruned", "GAAA", lambda: [_rgrid(8), np.array([0.5, 1.0, 1.5]), np.array([3, 7, 5, 3]), np.array([0.0, 0.0, 0.1])],
+    op("AtomGrid.from_pruned", "GAAA", lambda: [_rgrid(8), np.array([0.5, 1.0, 1.5]), np.array([3, 6, 4, 3]), np.array([0.0, 0.0, 0.1])],
        lambda v, cb: (lambda g: [g.points, g.weights, g.indices])(
            AtomGrid.from_pruned(v[0], 1.0, r_sectors=v[1], d_sectors=v[2], center=v[3])))
-    op("AtomGrid.from_pruned[lists,sizes]", "GLL", lambda: [_rgrid(8), [0.5, 1.0, 1.5], [6, 26, 14, 6]],
+    op("AtomGrid.from_pruned[lists,sizes]", "GLL", lambda: [_rgrid(8), [0.5, 1.0, 1.5], [6, 20, 14, 7]],
        lambda v, cb: (lambda g: [g.points, g.weights, g.indices])(AtomGrid.from_pruned(v[0], 1.0, r_sectors=v[1], s_sectors=v[2])))
     op("AtomGrid.from_preset", "GA", lambda: [_rgrid(20), np.array([0.3, 0.0, 0.0])],
        lambda v, cb: (lambda g: [g.points, g.weights])(AtomGrid.from_preset(8, "coarse", v[0], center=v[1])))
